@@ -72,3 +72,10 @@ Theorem C07_rsi_binary64_range : forall p s xs M, rsi_new FOps p = Ok s -> (p < 
   (1 <= M)%R -> (M <= bpow radix2 900)%R -> Forall (okin M) xs ->
   Forall (fun o => Prim2B o = B754_nan \/ (finF o /\ (0 <= FR o <= 100 + 300 * u)%R)) (rsi_outs FOps s xs).
 Proof. exact rsi_float_range. Qed.
+
+(* ---- binary64: SlowStochastic (scalar path) is a finite number in [0, 100 + 1700 (q+1) 2^-53] (inside the 1e-9 slack for every
+        smoothing period q <= 5000): the float EMA of FastStochastic values that lie in [0,100] exactly; >= 0 with no slack ---- *)
+From TA Require Import Proofs.FloatSlow.
+Theorem C07_slow_binary64_range : forall p q s xs, slow_new FOps p q = Ok s -> (q < 35184372088832)%N -> Forall inb xs ->
+  Forall (fun o => finF o /\ (0 <= FR o <= 100 + 1700 * (IZR (Z.of_N q) + 1) * u)%R) (slow_outs FOps s xs).
+Proof. exact slow_float_range. Qed.
